@@ -115,4 +115,80 @@ CloseRecords(cfg, S, S2, a, l, b) ==
   /\ b.id \notin Range(Stat(S2.m, pr.opool, pr.aout).bids)
   /\ minted = Stat(S2.m, pr.opool, pr.aout).tia - Stat(S.m, pr.opool, pr.aout).tia
   /\ minted >= 0 /\ minted <= Max0(b.iT - RT(S, b.id)) + 1 /\ minted >= Max0(b.iT - RT(S, b.id)) - 1
+
+(* ======================================================================================================================== *)
+(* FIRST GENERATION: x/liquidation (MsgLiquidateBorrow, LiquidateBorrows sweep) and x/auction lend Dutch auctions             *)
+(* (PlaceLendDutchAuctionBid, CloseDutchLendAuction, RestartDutchLendAuctions). A seizure is PARTIAL: the collateral worth the *)
+(* sell-off amount (+ bidder bonus) moves to the auction module, the penalty to the reserve, the position's collateral, the    *)
+(* lend position's AmountIn and the published total lent drop by the deducted amount; the rest stays pledged (uv flag) until    *)
+(* the auction ends and the position is re-created, re-auctioned or deleted.                                                     *)
+(*   x.v1lv   <<[id, b, owner, ain, aout, uout, prog, done, lend]>>   locked vaults of kind borrow                              *)
+(*   x.v1aucs <<[id, map, lv, b, owner, outInit, outLeft, collA, target, got, debtA, price, init, endp, dprice, start, end]>>   *)
+(*   x.auc1   <<[asset, amt]>> custody of the first-generation auction module                                                   *)
+(* ======================================================================================================================== *)
+Auc1Bal(S, a) == (CHOOSE x \in Range(S.x.auc1) : x.asset = a).amt
+HasAuc1(S, id) == \E a \in Range(S.x.v1aucs) : a.id = id
+Auc1Of(S, id) == CHOOSE a \in Range(S.x.v1aucs) : a.id = id
+NewAucs1(S, S2) == {a \in Range(S2.x.v1aucs) : ~HasAuc1(S, a.id)}
+HasLv1(S, id) == \E l \in Range(S.x.v1lv) : l.id = id
+Lv1Of(S, id) == CHOOSE l \in Range(S.x.v1lv) : l.id = id
+BonusRate(cfg, a) == AssetC(cfg, a).bonus
+(* positions that come under first-generation liquidation in the step *)
+SeizedV1(S, S2) == {b \in Range(S2.m.borrows) : b.uv /\ HasId(S.m.borrows, b.id) /\ ~GetId(S.m.borrows, b.id).uv}
+V1OnlyUnsafe(cfg, S, S2) == \A b2 \in SeizedV1(S, S2) : UnsafeWith(cfg, S.m, GetId(S.m.borrows, b2.id), b2.iT)
+V1OnlyEnabled(cfg, S, S2) == SeizedV1(S, S2) # {} => ~S.x.ks
+(* a locked vault of the post-state carries the id of a live pre-state vault but belongs to another position. NAMED DEVIATION:            *)
+(* UpdateLockedBorrows stores the id of the vault it (re-)processes as the id COUNTER, so re-auctioning an older vault moves the counter     *)
+(* backwards and the next new vault overwrites a live one.                                                                                 *)
+OverwritesVault(S, S2) == \E l \in Range(S.x.v1lv), l2 \in Range(S2.x.v1lv) : l.id = l2.id /\ l.b # l2.b
+(* a seizure whose computed sell-off exceeds the pledged collateral (the position's collateral is set to 0). NAMED DEVIATION:             *)
+(* UpdateLockedBorrows caps the RECORDS at the pledged amount but still moves / burns the uncapped amounts out of the pool.               *)
+Underwater(S, S2) == \E b2 \in SeizedV1(S, S2) : b2.cin = 0
+(* one locked vault and one auction per seized position; vault, position, lend position and auction agree on the amounts *)
+V1SeizeExact(cfg, S, S2) == \A b2 \in SeizedV1(S, S2) :
+  LET b == GetId(S.m.borrows, b2.id)
+      lvs == {l \in Range(S2.x.v1lv) : l.b = b.id}
+      ded == b.cin - b2.cin IN
+  /\ Cardinality(lvs) = 1 /\ ded >= 0 /\ b2.liq
+  /\ \A l \in lvs :
+       /\ l.ain = b2.cin /\ l.aout = b.out /\ l.uout = b.out + Max0(b2.iT)
+       /\ HasId(S.m.lends, b.lend) => l.owner = GetId(S.m.lends, b.lend).o
+       /\ HasId(S.m.lends, b.lend) /\ HasId(S2.m.lends, b.lend) => GetId(S.m.lends, b.lend).ain - GetId(S2.m.lends, b.lend).ain = ded
+       /\ Cardinality({a \in NewAucs1(S, S2) : a.lv = l.id}) = 1
+       /\ \A a \in NewAucs1(S, S2) : a.lv = l.id =>
+             a.collA = b.ca /\ a.debtA = b.oa /\ a.got = 0 /\ a.outLeft = a.outInit /\ a.outInit <= ded
+(* custody at a seizure step (no bid in it): what left the collateral pool went to the auction module and, as penalty, to the reserve; the     *)
+(* auction module received the collateral to sell plus the bidders' bonus on it; the cTokens burnt are the deducted collateral (one coin of     *)
+(* rounding per seized position between the deduction and the coins moved)                                                                     *)
+V1SeizeCustody(cfg, S, S2) ==
+  \A x \in Range(S2.x.auc1) :
+    LET as == x.asset
+        toAuc == x.amt - Auc1Bal(S, as)
+        toRes == Res(S2.m, as) - Res(S.m, as)
+        news == {a \in NewAucs1(S, S2) : a.collA = as}
+        sumInit == SumOver(S2.x.v1aucs, LAMBDA a : IF a \in news THEN a.outInit ELSE 0)
+        sumBonus == SumOver(S2.x.v1aucs, LAMBDA a : IF a \in news THEN FloorMul(a.outInit + 1, BonusRate(cfg, as)) + 1 ELSE 0)
+        ded == SumOver(S2.m.borrows, LAMBDA b2 : IF b2.ca = as /\ HasId(S.m.borrows, b2.id) /\ b2.uv THEN GetId(S.m.borrows, b2.id).cin - b2.cin ELSE 0)
+        pools == SumOver(S2.m.pb, LAMBDA y : IF y.asset = as THEN PB(S.m, y.pool, as).amt - y.amt ELSE 0)
+        burnt == SumOver(S2.m.pb, LAMBDA y : IF y.asset = as THEN PB(S.m, y.pool, as).c - y.c ELSE 0)
+        n == Cardinality(news)
+    IN /\ toAuc >= sumInit /\ toAuc <= sumInit + sumBonus /\ toRes >= 0
+       /\ pools = toAuc + toRes
+       /\ burnt = ded
+       /\ ded - (toAuc + toRes) <= n /\ (toAuc + toRes) - ded <= n
+
+(* ---- bids ---- *)
+Slice1(a, a2) == a.outLeft - a2.outLeft
+(* never more collateral than the amount paid buys at the posted price, plus the advertised bonus on it (one coin of rounding on either side) *)
+V1PostedPrice(cfg, S, S2, a) ==
+  LET recv == Received(S, S2, a)  paid == Paid(S, S2, a)  r == BonusRate(cfg, a.collA)
+      unitColl == LMul(a.price, LOfInt(AssetC(cfg, a.debtA).dec))
+      bought == LAdd(LMul(a.dprice, LProd(<<paid + 1, AssetC(cfg, a.collA).dec>>)), unitColl)     \* value scale: collateral coins * price * debt decimals
+  IN recv > 1 => LLe(LMul(unitColl, LProd(<<recv, r[2]>>)), LAdd(LMul(bought, LOfInt(r[1] + r[2])), LMul(unitColl, LOfInt(r[2]))))
+V1StartPriceOk(cfg, S2, a) ==
+  /\ LEq(LMul(a.init, LOfInt(cfg.v1buffer[2])), LMul(E18, LProd(<<PriceRec(S2.m, a.collA).p, cfg.v1buffer[1]>>)))
+  /\ LEq(LMul(a.endp, LOfInt(cfg.v1cusp[2])), LMul(a.init, LOfInt(cfg.v1cusp[1])))
+  /\ LEq(a.price, a.init)
+V1InBand(a) == LLe(a.price, a.init) /\ LLe(a.endp, a.price)
+V1Covers(S) == \A x \in Range(S.x.auc1) : x.amt >= SumOver(S.x.v1aucs, LAMBDA a : IF a.collA = x.asset THEN a.outLeft ELSE 0)
 =============================================================================
